@@ -1010,9 +1010,21 @@ def laws(sp, cl, ext, tr, res, count=None, scale=1.0):
 
 
 # ------------------------------------------------------------------------------- running
-def run_script_pair(ck, hbin, script, with_model=True):
+def run_bin_retry(ck, binary, script, tries=3):
+    """helper runs (attribution, minimal scripts, weighted sums) are repeated when the process itself failed — no output
+    or a non-zero exit although the script is short and well-formed — so that a transient failure of a loaded machine
+    (fork / sanitizer start-up) cannot turn a known finding into an alarm.  A reproducible crash still comes back."""
+    o, rc, err = None, None, ""
+    for _ in range(tries):
+        o, rc, err = ck.run_bin(binary, script)
+        if o is not None and rc == 0 and len(o) >= len(script) - 1:
+            break
+    return o, rc, err
+
+
+def run_script_pair(ck, hbin, script, with_model=True, retry=False):
     """one script through the harness and (with the harness's recorded answers fed back) the model driver"""
-    impl, rc, err = ck.run_bin(hbin, script)
+    impl, rc, err = run_bin_retry(ck, hbin, script) if retry else ck.run_bin(hbin, script)
     impl = impl or []
     mscript = list(script)
     for i, ln in enumerate(impl):
@@ -1023,7 +1035,7 @@ def run_script_pair(ck, hbin, script, with_model=True):
                 mscript[i + 1] = "distr " + mscript[i + 1][5:] + " rec " + rec
     model = None
     if with_model:
-        model, rc2, err2 = ck.run_bin(ck.driver(DRIVER), mscript)
+        model, rc2, err2 = (run_bin_retry(ck, ck.driver(DRIVER), mscript) if retry else ck.run_bin(ck.driver(DRIVER), mscript))
         if rc2 != 0:
             raise RuntimeError("model driver failed (rc=%s): %s" % (rc2, (err2 or "")[-1000:]))
     return impl, model, rc, err
@@ -1070,7 +1082,7 @@ def attribute(ck, hbin, sp, tr, law, idx):
         sub = tuple(s[i:i + n] for s in tr)
         i += n
         script = ["spacedist"] + space_lines(usp, [sub])
-        o, rc, err = ck.run_bin(hbin, script)
+        o, rc, err = run_bin_retry(ck, hbin, script)
         if not o or o[0] != "ok":
             continue
         cl, ext, ts = parse_block(o[1:])
@@ -1151,7 +1163,7 @@ def report_violation(ck, hbin, sp, tr, v, tag):
     law, idx, defect, text = v
     culprit, recs = classify(ck, hbin, sp, tr, v)
     script = minimal_script(sp, tr)
-    impl, model, rc, err = run_script_pair(ck, hbin, script, with_model=not impl_only(sp))
+    impl, model, rc, err = run_script_pair(ck, hbin, script, with_model=not impl_only(sp), retry=True)
     # `as_coded`: every value the implementation printed for this triple is bit-identical to the Lean model of the code
     # as it stands (the function the `_fails` witnesses and the finding text are about).  Every finding line requires it,
     # so a DIFFERENT wrong value — same law, same space, same input class — is not a known finding but a VIOLATION.
@@ -1345,7 +1357,7 @@ def weighted_sum_check(ck, hbin, sp, triples, ts, state):
         subs = [tuple(s[i:i + n] for s in tr) for tr in triples]
         i += n
         script += space_lines(usp, subs)
-    o, rc, err = ck.run_bin(hbin, script)          # one process for all units of this space
+    o, rc, err = run_bin_retry(ck, hbin, script)   # one process for all units of this space
     per = 3 + OPS_PER_TRIPLE * len(triples)
     if not o or len(o) < per * len(us):
         return
@@ -1541,11 +1553,16 @@ MANIFEST = {
             "quaternions, Moebius, Klein bottle, sphere poles/extent, unbounded time, zero weights); a claims table "
             "regenerated on every run by running the code (31 space instances) with a `decide`d coverage obligation. Tied to "
             "the C++ by bit-exact lock-step runs of the real classes against the compiled model, plus a six-law oracle on the "
-            "implementation's own distances over pairs and genuine triples (Dubins, Reeds-Shepp, Owen, Vana, VanaOwen: "
-            "oracle only).",
+            "implementation's own distances over pairs and genuine triples, and a model-independent weighted-sum oracle. "
+            "Dubins, Reeds-Shepp, Vana and Owen distances are in the lock-step through C14's Lean models (Owen with the root of "
+            "boost's bracketing search recorded; VanaOwen: length recomputed from the recorded path). Histories change bounds, "
+            "dimensions and weights (by index and by name) after construction / setup() and compare with the model recomputed "
+            "from the current values. Every known finding must be bit-identical to the model of the code as it stands "
+            "(`as_coded`), so a different wrong value is a violation.",
     "note": "Trusted: Lean kernel, the three standard axioms, the model outside the explored inputs, the harness, claims.py. "
-            "Theorems are over the reals (rounding executed and compared, not verified). Dubins / Reeds-Shepp / Owen / Vana / "
-            "VanaOwen: oracle on the implementation only. Constrained spaces are exercised over a unit-sphere constraint.",
+            "Theorems are over the reals (rounding executed and compared, not verified). The metric theory of the car-like spaces "
+            "is C14's; here they are lock-stepped and put to the oracle. Constrained spaces are exercised over sphere, plane and "
+            "torus constraints with R^n, SE(2), SE(3), wrapped and compound ambient spaces.",
     "technique": "Lean 4 proof (real-number metric laws, inner-product-space angles, structural induction over compound "
                  "spaces, counterexample witnesses) + bit-exact differential correspondence + generated claims obligation",
 }
